@@ -41,13 +41,17 @@ def plan(tier, seed):
 
 
 def run_shard(spec, acc):
-    prof = gen.profile(p_green=0.85, p_forward=0.6)
+    prof = gen.profile(p_green=0.9, p_forward=0.6)
+    openers = [None, gen.OPENERS['two_prs_same_base'],
+               gen.OPENERS['stab_between_devs'], None,
+               gen.OPENERS['dest_moves_while_open'],
+               gen.OPENERS['three_queued']]
     if spec['tier'] == 'quick':
         n_hist, jobs, cap = 9, 12, 600
     else:
         n_hist, jobs, cap = 60, 20, 4200
     runner.run_histories(spec, acc, configs(), prof, MONITORS, n_hist, jobs,
-                         soft_cap_s=cap)
+                         openers=openers, soft_cap_s=cap)
 
 
 def finalize(acc, tier, seed):
